@@ -81,6 +81,20 @@ def dispatch_eval(prog):
             out["all-errors"] = "keyword functions called: %r; expected each known key once with its own value, unknown keys skipped" % (called,)
         if any(c[0] == "call" and (c[3] is not I or c[4] is not s1 or c[5] is not v) for c in log):
             out["all-errors"] = "a keyword function is not called with (this validator, value, this instance, this schema)"
+        # a schema with more members than the class has keywords (annotations, vendor extensions): still walked in its own order
+        big = {}
+        for i in range(12):
+            big["x-%d" % i] = i
+        big["k2"] = 20
+        for i in range(12, 24):
+            big["y-%d" % i] = i
+        big["k1"] = 10
+        big["k0"] = 5
+        run(big)
+        called = [(c[1], c[2]) for c in log if c[0] == "call"]
+        if called != [("k2", 20), ("k1", 10), ("k0", 5)]:
+            out["all-errors"] = out["all-errors"] or ("a schema with 27 members (24 of them unknown names): keyword functions called %r; expected k2, k1, k0 -- the schema's own "
+                                                       "order, each once" % (called,))
         errs2 = run({"kd1": 1, "kd2": 2})
         if len(errs2) != 2 or errs2[0] is errs2[1]:
             out["all-errors"] = "two keywords failing with the same message at the same place give %d errors, expected both" % len(errs2)
@@ -338,6 +352,13 @@ def classes_eval(prog):
             V2 = ev.call_func(prog.func("validators.create"), [], {"meta_schema": {"title": "no id"}, "validators": {}, "version": "v2", "id_of": id_of})
             if reg_v.get("v2") is not V2 or len(list(iter(reg_m))) != 2:
                 out["registers"] = "a class whose metaschema has no id is registered under an id all the same (or not under its version)"
+            # the id a class registers under is the one *its own* id_of reads: a `$id` in the metaschema means nothing to a class that
+            # reads `id` (it has no metaschema id then, and takes nobody's place)
+            Vd = ev.call_func(prog.func("validators.create"), [], {"meta_schema": {"$id": "http://m/v1#", "title": "only a $id"}, "validators": {}, "version": "vdollar", "id_of": id_of})
+            if reg_v.get("vdollar") is not Vd or reg_m.get("http://m/v1") is not V1 or len(list(iter(reg_m))) != 2:
+                out["registers"] = ("a class that reads ids with `id` and whose metaschema only has a `$id` is registered under that `$id` all the same "
+                                    "(ids now %r; http://m/v1 -> %s)" % (sorted(iter(reg_m)), "the earlier class" if reg_m.get("http://m/v1") is V1 else "the new class"))
+            reg_v.pop("vdollar", None)
             V3 = ev.call_func(prog.func("validators.create"), [], {"meta_schema": {"id": "http://m/v1#"}, "validators": {}, "version": "v3", "id_of": id_of})
             if reg_m.get("http://m/v1") is not V3:
                 out["registers"] = "a class registered later under the same metaschema id does not become the one selected"
